@@ -1985,6 +1985,13 @@ insert_list:
                 return true;
         }
     }
+#ifdef PHOTON_VERIF
+    // verification hook: called by rwlock::unlock between its wake-up decision and the notify
+    extern "C" { void (*photon_verif_rwlock_window)(void*, int) = nullptr; }
+#define PHOTON_VERIF_RWLOCK_WINDOW(w) do { if (photon_verif_rwlock_window) photon_verif_rwlock_window(this, w); } while (0)
+#else
+#define PHOTON_VERIF_RWLOCK_WINDOW(w) do { } while (0)
+#endif
     int rwlock::lock(int mode, Timeout timeout)
     {
         if (mode != RLOCK && mode != WLOCK)
@@ -2026,11 +2033,14 @@ insert_list:
             state ++;
         if (state == 0 && cvar.q.th) {
             if (cvar.q.th && (cvar.q.th->rwlock_mark & WLOCK)) {
+                PHOTON_VERIF_RWLOCK_WINDOW(1);
                 cvar.notify_one();
-            } else
+            } else {
+                PHOTON_VERIF_RWLOCK_WINDOW(2);
                 while (cvar.q.th && (cvar.q.th->rwlock_mark & RLOCK)) {
                     cvar.notify_one();
                 }
+            }
         }
         return 0;
     }
